@@ -1,14 +1,14 @@
 (* C06: declarations and whole files round-trip.
    PROVED top-level forms: class header (with or without parent), module header, uses list,
-   constant (string / number), field with a basic type, comment, procedure and function without
-   parameter list and without modifiers whose body is any derivable statement sequence ([GStmt]).
-   NOT proved here (correspondence only): parameters, member/method modifiers, forward/external,
-   method#event names, type declarations and non-basic types, `memory` / `absolute` / `multilang`,
-   annotations.
+   constant (string / number, optional `multilang`), type declaration (every type form of TypeRT.v),
+   field (optional annotation, `memory`, any type, member modifiers, `absolute`), comment, procedure and
+   function with plain or method#event name, parameter list (absent, empty, typed / untyped parameters
+   with modes), method modifiers (private / protected / final / override / forward / external '..'),
+   with a body of any derivable statement sequence ([GStmt]) or -- forward / external -- without body.
    [file_roundtrip]: for every derivable file, parse_gold (memoisation off, any fuel above the
    derivation level) returns the root with exactly the derived declarations, consumes every token
-   and reports no diagnostic. *)
-From GoldV Require Import Base Tokens Lexer AstKinds Tree Strings PComb Grammar Ladder RTComb LadderProofs ExprRT StmtRT.
+   and reports no diagnostic.  FileRT.v lifts this to parse_gold itself. *)
+From GoldV Require Import Base Tokens Lexer AstKinds Tree Strings PComb Grammar Ladder RTComb LadderProofs ExprRT TypeRT StmtRT.
 From Coq Require Import Lia.
 
 (* ---------- node builders ---------- *)
@@ -19,12 +19,6 @@ Definition mk_class (ct nt : tok) (parent : option (tok * tok)) : node :=
        [(K_ident, AT nt); (K_parent, opt_toks (match parent with Some (p, _) => Some p | None => None end))] [].
 Definition mk_module (mt nm : tok) : node :=
   Node KAstModule (tval nm) (traw mt) (range_of_toks mt nm) [(K_ident, AT nm)] [].
-Definition mk_uses (ut : tok) (ids : list tok) : node :=
-  let end_ := match rev ids with t :: _ => rend (trange t) | [] => rend (trange ut) end in
-  Node KAstUses S_uses (traw ut) (mkRange (tpos ut) end_) [(K_uses, AL ids)] [].
-Definition mk_const (ct id v : tok) : node :=
-  Node KAstConstantDeclaration (tval id) (traw ct) (range_of_toks ct v)
-       [(K_ident, AT id); (K_flags, AN 0); (K_value, AL [v])] [].
 Definition mk_field (id : tok) (ty : node) : node :=
   Node KAstGlobalVariableDeclaration (tval id) (traw id) (new_range (trange id) (nrange ty))
        [(K_ident, AT id); (K_flags, AN 0)] [ty].
@@ -54,45 +48,66 @@ Definition mk_func (ft nm rt : tok) (body : list tok) (stmts : list node) (e : t
        [(K_end, AL [e]); (K_flags, AN 0)]
        [name; rty; body_or_default (mk_method_body body stmts) (nraw rty) (nrange rty)].
 
-(* ---------- small combinator facts ---------- *)
 
-Lemma until_no_match_none {A} (p : P A) i : Fails p i -> Parses (until_no_match p) i i [].
-Proof.
-  intros H c Hc. unfold until_no_match. cbn [until_no_match_go]. destruct i as [|t i'].
-  - eexists _, c. repeat split.
-  - destruct (H c Hc) as (x & c1 & E & Q & e & m & ->). rewrite E. eexists _, c1. repeat split; apply Q.
-Qed.
+Definition member_mods_info (ts : list tok) : option (range * N) :=
+  match ts with
+  | [] => None
+  | first :: _ => let last := match rev ts with t :: _ => t | [] => first end in
+                  Some (new_range (trange first) (trange last), member_flags ts)
+  end.
+Definition mk_field_gen (mem : option tok) (id : tok) (ty : node) (mods : option (range * N)) (an : option node) : node :=
+  let first := match mem with Some t => t | None => id end in
+  let end0 := match mods with Some (r, _) => r | None => nrange ty end in
+  let end_ := match an with Some n => nrange n | None => end0 end in
+  let flags := match mods with Some (_, f) => f | None => 0 end in
+  Node KAstGlobalVariableDeclaration (tval id) (traw first) (new_range (trange first) end_)
+       [(K_ident, AT id); (K_flags, AN (flags + 64 * b2n (match mem with Some _ => true | None => false end)))]
+       (ty :: opt_list an).
+Definition mk_event_name (nm ev : tok) : node :=
+  let id := tval nm ++ [35] ++ tval ev in
+  Node KAstMethodNameWithEvent id (traw nm) (new_range (trange nm) (trange ev)) [(K_str, AS id)] [mk_terminal nm; mk_terminal ev].
+Definition ext_tok (e s : tok) : tok := mkTok (traw e) (new_range (trange e) (trange s)) (tty s) (tval s).
+Definition method_mods_info (ts : list tok) : option (N * range * N) :=
+  match ts with
+  | [] => None
+  | first :: _ =>
+      let last := match rev ts with t :: _ => t | [] => first end in
+      let fwd := existsb (fun t => tt_eqb (tty t) TForward) ts in
+      let ext := existsb (fun t => tt_eqb (tty t) TStringLiteral) ts in
+      Some (traw first, new_range (trange first) (trange last), member_flags ts + 16 * b2n fwd + 32 * b2n ext)
+  end.
+Definition mods_flags (mods : option (N * range * N)) : N := match mods with Some (_, _, f) => f | None => 0 end.
+Definition mods_end (mods : option (N * range * N)) (dflt : N * range) : N * range :=
+  match mods with Some (mr, r, _) => (mr, r) | None => dflt end.
+(* a procedure / function node from its header parts; [body] = Some (body tokens, statements, end token) *)
+Definition mk_proc_node (first : tok) (name : node) (ps : option node) (mods : option (N * range * N))
+           (body : option (list tok * list node * tok)) : node :=
+  let er := mods_end mods (match ps with Some n => (nraw n, nrange n) | None => (nraw name, nrange name) end) in
+  let end_ := match body with Some (_, _, e) => trange e | None => snd er end in
+  Node KAstProcedure (nident name) (traw first) (new_range (trange first) end_)
+       [(K_end, AL (match body with Some (_, _, e) => [e] | None => [] end)); (K_flags, AN (mods_flags mods))]
+       (name :: opt_list ps ++
+        match body with Some (bt, ns, _) => [body_or_default (mk_method_body bt ns) (fst er) (snd er)] | None => [] end).
+Definition mk_func_node (first : tok) (name : node) (ps : option node) (rt : tok) (mods : option (N * range * N))
+           (body : option (list tok * list node * tok)) : node :=
+  let rty := mk_type_basic rt in
+  let er := mods_end mods (nraw rty, nrange rty) in
+  let end_ := match body with Some (_, _, e) => trange e | None => snd er end in
+  Node KAstFunction (nident name) (traw first) (new_range (trange first) end_)
+       [(K_end, AL (match body with Some (_, _, e) => [e] | None => [] end)); (K_flags, AN (mods_flags mods))]
+       (name :: rty :: opt_list ps ++
+        match body with Some (bt, ns, _) => [body_or_default (mk_method_body bt ns) (fst er) (snd er)] | None => [] end).
 
-(* t1 , t2 , t3 *)
-Inductive TokList (item sep : ttype) : list tok -> list tok -> Prop :=
-| TL_one t : tty t = item -> TokList item sep [t] [t]
-| TL_cons t cm ts ids : tty t = item -> tty cm = sep -> TokList item sep ts ids -> TokList item sep (t :: cm :: ts) (t :: ids).
-
-Lemma sep_tokens_go_ok item sep : sep <> TComment -> forall ts ids, TokList item sep ts ids ->
-  forall fuel acc more, (length ids <= fuel)%nat -> nostart [sep] more ->
-  Parses (sep_tokens_go fuel item sep acc) (ts ++ more) more (rev acc ++ ids).
-Proof.
-  intros Hs ts ids H. induction H as [t Ht|t cm ts ids Ht Hcm Hrest IH]; intros fuel acc more Hf Hn c Hc;
-    (destruct fuel as [|f]; [simpl in Hf; lia|]); cbn [sep_tokens_go app].
-  - destruct (Parses_run _ _ _ _ c (exp_token_ok item t more Ht) Hc) as (c1 & E1 & Q1). rewrite E1.
-    destruct (exp_token_nostart sep more Hs Hn c1 (quiet_memo _ _ Hc Q1)) as (x & c2 & E2 & Q2 & m & ->). rewrite E2.
-    eexists _, c2. split; [reflexivity|]. split; [apply (quiet_trans _ _ _ Q1 Q2)|reflexivity].
-  - destruct (Parses_run _ _ _ _ c (exp_token_ok item t (cm :: ts ++ more) Ht) Hc) as (c1 & E1 & Q1). rewrite E1.
-    destruct (Parses_run _ _ _ _ c1 (exp_token_ok sep cm (ts ++ more) Hcm) (quiet_memo _ _ Hc Q1)) as (c2 & E2 & Q2). rewrite E2.
-    pose proof (quiet_trans _ _ _ Q1 Q2) as Q12.
-    destruct (IH f (t :: acc) more ltac:(simpl in Hf; lia) Hn c2 (quiet_memo _ _ Hc Q12)) as (z & c3 & E3 & Q3 & ->).
-    eexists _, c3. split; [exact E3|]. split; [apply (quiet_trans _ _ _ Q12 Q3)|]. simpl. rewrite <- app_assoc. reflexivity.
-Qed.
-
-Lemma TokList_len item sep ts ids : TokList item sep ts ids -> (length ids <= length ts)%nat.
-Proof. induction 1; simpl; lia. Qed.
-
-Lemma sep_tokens_ok item sep ts ids more : sep <> TComment -> TokList item sep ts ids -> nostart [sep] more ->
-  Parses (sep_tokens item sep) (ts ++ more) more ids.
-Proof.
-  intros Hs H Hn. unfold sep_tokens. apply (sep_tokens_go_ok item sep Hs ts ids H _ [] more); [|exact Hn].
-  pose proof (TokList_len _ _ _ _ H). rewrite app_length. lia.
-Qed.
+Lemma mk_proc_plain pt nm body ns e :
+  mk_proc pt nm body ns e = mk_proc_node pt (mk_terminal nm) None None (Some (body, ns, e)).
+Proof. reflexivity. Qed.
+Lemma mk_func_plain ft nm rt body ns e :
+  mk_func ft nm rt body ns e = mk_func_node ft (mk_terminal nm) None rt None (Some (body, ns, e)).
+Proof. reflexivity. Qed.
+Lemma mk_field_plain id ty : mk_field id ty = mk_field_gen None id ty None None.
+Proof. reflexivity. Qed.
+Lemma mk_const_plain ct id v : mk_const ct id v = mk_const_ml ct id v None.
+Proof. reflexivity. Qed.
 
 (* ---------- what may follow a top-level declaration ---------- *)
 
@@ -104,11 +119,134 @@ Definition dfollow_ok (ts : list tok) (h : option ttype) : Prop := dfollow_h h /
 Lemma dfollow_nostart X more : disj_b X decl_first = true -> dfollow_h (hd_ty more) -> nostart X more.
 Proof. intros Hd Hs ty Hh Hx. rewrite Hh in Hs. simpl in Hs. apply (disj_b_spec _ _ _ Hd Hx Hs). Qed.
 
+Definition member_mod_types : list ttype := [TPrivate; TProtected; TFinal; TOverride].
 Definition method_mods : list ttype := [TPrivate; TProtected; TFinal; TOverride; TExternal; TForward].
+
+(* ---------- header parts that do not depend on the level ---------- *)
+
+(* an annotation  [ ... ]  in front of a declaration *)
+Inductive Annot : list tok -> Prop :=
+| An_none : Annot []
+| An_some o body c : tty o = TOSqrBracket -> Forall (fun t => tty t <> TCSqrBracket) body -> tty c = TCSqrBracket ->
+    Annot (o :: body ++ [c]).
+
+Lemma annot_parses ats r : Annot ats -> (ats = [] -> nostart [TOSqrBracket] r) ->
+  exists v, Parses (opt parse_annotations) (ats ++ r) r v.
+Proof.
+  intros H Hr. destruct H as [|o body c Ho Hb Hc].
+  - exists None. cbn [app]. apply annot_opt_none. apply Hr. reflexivity.
+  - exists (Some mk_empty_default). cbn [app]. rewrite <- app_assoc. cbn [app]. apply Parses_opt_some.
+    unfold parse_annotations. eapply Parses_bind; [apply exp_token_ok; exact Ho|]. cbv beta.
+    eapply Parses_bind.
+    { apply Parses_opt_some. unfold annotation_body. eapply Parses_bind.
+      - apply take_until_ok.
+        + eapply Forall_impl; [|exact Hb]. intros t Ht. cbv beta in Ht. cbn [existsb]. rewrite (tt_eqb_neq _ _ Ht). reflexivity.
+        + cbn [existsb]. rewrite Hc. reflexivity.
+      - cbv beta. cbn [snd]. apply Parses_ret. }
+    cbv beta iota. apply Parses_ret.
+Qed.
+
+(* the head of  ats ++ r  when r starts with a token of a type in S *)
+Lemma annot_head X S ats t r : Annot ats -> In (tty t) S -> disj_b (TOSqrBracket :: S) (TComment :: X) = true ->
+  nostart X (ats ++ t :: r).
+Proof.
+  intros H Ht Hd. destruct H as [|o body c Ho _ _]; cbn [app].
+  - eapply (starts_nostart (TOSqrBracket :: S)); [right; exact Ht|exact Hd].
+  - eapply (starts_nostart (TOSqrBracket :: S)); [left; auto|exact Hd].
+Qed.
+
+(* method names *)
+Inductive MName : list tok -> node -> Prop :=
+| MN_plain nm : In (tty nm) ident_types -> MName [nm] (mk_terminal nm)
+| MN_event nm p ev : In (tty nm) ident_types -> tty p = TPound -> In (tty ev) ident_types ->
+    MName [nm; p; ev] (mk_event_name nm ev).
+
+Lemma method_name_parses ts n more : MName ts n -> nostart [TPound] more -> Parses parse_method_name (ts ++ more) more n.
+Proof.
+  intros H Hr. unfold parse_method_name, alt. destruct H as [nm Hn|nm p ev Hn Hp He]; cbn [app].
+  - apply alt_go_skip.
+    { unfold parse_method_name_uievent. eapply Fails_bind_r; [apply parse_identifier_ok; exact Hn|].
+      apply Fails_bind_l. eapply FailsAt_Fails. apply exp_token_nostart; [discriminate|exact Hr]. }
+    intro b. apply alt_go_here. apply parse_identifier_ok. exact Hn.
+  - apply alt_go_here. unfold parse_method_name_uievent.
+    eapply Parses_bind; [apply parse_identifier_ok; exact Hn|]. cbv beta.
+    eapply Parses_bind; [apply exp_token_ok; exact Hp|]. cbv beta.
+    eapply Parses_bind; [apply parse_identifier_ok; exact He|]. cbv beta. apply Parses_ret.
+Qed.
+
+(* member modifiers (fields) *)
+Lemma member_mods_parses mts more : Forall (fun t => In (tty t) member_mod_types) mts -> nostart member_mod_types more ->
+  Parses parse_member_modifiers (mts ++ more) more (member_mods_info mts).
+Proof.
+  intros Hm Hf c Hc. unfold parse_member_modifiers.
+  assert (Fails parse_member_modifier_tokens more) as Hfail.
+  { unfold parse_member_modifier_tokens. eapply FailsAt_Fails. apply tok_alt_nostart; [discriminate|reflexivity|exact Hf]. }
+  assert (Chain parse_member_modifier_tokens (fail []) more (mts ++ more) mts) as Hch.
+  { induction Hm as [|t mts Ht Hm IH]; [apply Ch_nil|]. cbn [app].
+    eapply Ch_cons; [discriminate|apply Fails_fail| |exact IH].
+    unfold parse_member_modifier_tokens. apply tok_alt_in; [exact Ht|reflexivity]. }
+  destruct (Parses_run _ _ _ _ c (until_no_match_chain _ _ more _ mts Hfail Hch ltac:(rewrite app_length; lia)) Hc) as (c1 & E1 & Q1).
+  rewrite E1. destruct mts as [|first mts']; eexists _, c1; (split; [reflexivity|]); (split; [exact Q1|reflexivity]).
+Qed.
+
+(* method modifiers: tokens and what the parser collects (an `external 'dll'` pair becomes one token) *)
+Inductive Mods : list tok -> list tok -> Prop :=
+| Md_nil : Mods [] []
+| Md_mod t ts rs : In (tty t) member_mod_types -> Mods ts rs -> Mods (t :: ts) (t :: rs)
+| Md_fwd t ts rs : tty t = TForward -> Mods ts rs -> Mods (t :: ts) (t :: rs)
+| Md_ext e s ts rs : tty e = TExternal -> tty s = TStringLiteral -> Mods ts rs -> Mods (e :: s :: ts) (ext_tok e s :: rs).
+
+Definition method_mod_item : P tok := alt [parse_member_modifier_tokens; parse_method_external; exp_token TForward].
+
+Lemma Mods_len ts rs : Mods ts rs -> (length rs <= length ts)%nat.
+Proof. induction 1; simpl; lia. Qed.
+
+Lemma method_mods_parses ts rs more : Mods ts rs -> nostart method_mods more ->
+  Parses parse_method_modifiers (ts ++ more) more (method_mods_info rs).
+Proof.
+  intros Hm Hf c Hc. unfold parse_method_modifiers. fold method_mod_item.
+  assert (Fails method_mod_item more) as Hfail.
+  { unfold method_mod_item. apply alt_fails; [discriminate|]. repeat (apply Forall_cons || apply Forall_nil).
+    - unfold parse_member_modifier_tokens. eapply FailsAt_Fails. apply tok_alt_nostart; [discriminate|reflexivity|sub_nostart Hf].
+    - unfold parse_method_external. apply Fails_bind_l. apply seq_tokens_fail; [discriminate|sub_nostart Hf].
+    - eapply FailsAt_Fails. apply exp_token_nostart; [discriminate|sub_nostart Hf]. }
+  assert (Chain method_mod_item (fail []) more (ts ++ more) rs) as Hch.
+  { induction Hm as [|t ts rs Ht Hm IH|t ts rs Ht Hm IH|e s ts rs He Hs Hm IH]; [apply Ch_nil| | |]; cbn [app].
+    - eapply Ch_cons; [discriminate|apply Fails_fail| |exact IH]. unfold method_mod_item, alt. apply alt_go_here.
+      unfold parse_member_modifier_tokens. apply tok_alt_in; [exact Ht|reflexivity].
+    - eapply Ch_cons; [discriminate|apply Fails_fail| |exact IH]. unfold method_mod_item, alt.
+      assert (nostart (member_mod_types ++ [TExternal]) (t :: ts ++ more)) as Hn by (eapply nostart_ty; [exact Ht|reflexivity]).
+      apply alt_go_skip.
+      { unfold parse_member_modifier_tokens. eapply FailsAt_Fails. apply tok_alt_nostart; [discriminate|reflexivity|sub_nostart Hn]. }
+      intro b1. apply alt_go_skip.
+      { unfold parse_method_external. apply Fails_bind_l. apply seq_tokens_fail; [discriminate|sub_nostart Hn]. }
+      intro b2. apply alt_go_here. apply exp_token_ok. exact Ht.
+    - eapply Ch_cons; [discriminate|apply Fails_fail| |exact IH]. unfold method_mod_item, alt.
+      apply alt_go_skip.
+      { unfold parse_member_modifier_tokens. eapply FailsAt_Fails. apply tok_alt_nostart; [discriminate|reflexivity|].
+        eapply nostart_ty; [exact He|reflexivity]. }
+      intro b1. apply alt_go_here. unfold parse_method_external.
+      eapply Parses_bind; [apply (seq_tokens_ok _ [e; s]); cbn [map]; rewrite He, Hs; reflexivity|]. cbv beta iota. apply Parses_ret. }
+  pose proof (Mods_len _ _ Hm) as Hl.
+  destruct (Parses_run _ _ _ _ c (until_no_match_chain _ _ more _ rs Hfail Hch ltac:(rewrite app_length; lia)) Hc) as (c1 & E1 & Q1).
+  rewrite E1. destruct rs as [|first rs'].
+  - inversion Hm; subst. eexists _, c1. split; [reflexivity|]. split; [exact Q1|reflexivity].
+  - eexists _, c1. split; [reflexivity|]. split; [exact Q1|reflexivity].
+Qed.
+
+Lemma Mods_head ts rs t r : Mods ts rs -> ts = t :: r -> In (tty t) method_mods.
+Proof. intros H E. destruct H; inversion E; subst; simpl in *; intuition (try congruence); rewrite ?H; simpl; tauto. Qed.
 
 Section Top.
   Variable fuel : nat.                        (* the grammar level the file is parsed with: gram (S fuel) *)
   Let g := gram (S fuel).
+
+  Definition absolute_toks (ab : option (tok * tok)) : list tok := match ab with Some (k, v) => [k; v] | None => [] end.
+  Definition absolute_ok (ab : option (tok * tok)) : Prop :=
+    match ab with Some (k, v) => tty k = TAbsolute /\ In (tty v) ident_types | None => True end.
+  Definition absolute_node (ab : option (tok * tok)) : option node := option_map (fun kv => mk_terminal (snd kv)) ab.
+  Definition mem_ok (mem : option tok) : Prop := match mem with Some m => tty m = TMemory | None => True end.
+  Definition ml_ok (ml : option tok) : Prop := match ml with Some m => tty m = TMultiLang | None => True end.
 
   Inductive Decl : list tok -> node -> Prop :=
   | D_class ct nt : tty ct = TClass -> tty nt = TIdentifier -> Decl [ct; nt] (mk_class ct nt None)
@@ -116,17 +254,58 @@ Section Top.
       tty c = TCBracket -> Decl [ct; nt; o; p; c] (mk_class ct nt (Some (p, c)))
   | D_module mt nm : tty mt = TModule -> tty nm = TIdentifier -> Decl [mt; nm] (mk_module mt nm)
   | D_uses ut ts ids : tty ut = TUses -> TokList TIdentifier TComma ts ids -> Decl (ut :: ts) (mk_uses ut ids)
-  | D_const ct id eq v : tty ct = TConst -> tty id = TIdentifier -> tty eq = TEquals ->
-      In (tty v) [TStringLiteral; TNumericLiteral] -> Decl [ct; id; eq; v] (mk_const ct id v)
-  | D_field id col tts tn : tty id = TIdentifier -> tty col = TColon -> TypeR tts tn ->
-      Decl (id :: col :: tts) (mk_field id tn)
+  | D_const_ml ct id eq v ml : tty ct = TConst -> tty id = TIdentifier -> tty eq = TEquals ->
+      In (tty v) [TStringLiteral; TNumericLiteral] -> ml_ok ml -> Decl (ct :: id :: eq :: v :: opt_list ml) (mk_const_ml ct id v ml)
+  | D_typedecl tk id col tts tn : tty tk = TType -> tty id = TIdentifier -> tty col = TColon -> GType (S fuel) tts tn ->
+      Decl (tk :: id :: col :: tts) (mk_type_decl tk id tn)
+  | D_field_gen ats mem id col tts tn mts ab : Annot ats -> mem_ok mem -> tty id = TIdentifier -> tty col = TColon ->
+      GType (S fuel) tts tn -> Forall (fun t => In (tty t) member_mod_types) mts -> absolute_ok ab ->
+      Decl (ats ++ opt_list mem ++ id :: col :: tts ++ mts ++ absolute_toks ab)
+           (mk_field_gen mem id tn (member_mods_info mts) (absolute_node ab))
   | D_comment c : tty c = TComment -> Decl [c] (mk_comment c)
-  | D_proc pt nm body ns e : tty pt = TProc -> In (tty nm) ident_types ->
-      Seq (GStmt (S fuel)) None body ns -> Forall (fun t => ~ In (tty t) [TEndProc; TEnd]) body ->
-      In (tty e) [TEndProc; TEnd] -> Decl (pt :: nm :: body ++ [e]) (mk_proc pt nm body ns e)
-  | D_func ft nm rk rt body ns e : tty ft = TFunc -> In (tty nm) ident_types -> tty rk = TReturn -> tty rt = TIdentifier ->
-      Seq (GStmt (S fuel)) None body ns -> Forall (fun t => ~ In (tty t) [TEndFunc; TEnd]) body ->
-      In (tty e) [TEndFunc; TEnd] -> Decl (ft :: nm :: rk :: rt :: body ++ [e]) (mk_func ft nm rt body ns e).
+  | D_proc_gen pt nts name pts ps mts mrs body ns e : tty pt = TProc -> MName nts name -> GParams (S fuel) pts ps -> Mods mts mrs ->
+      has_method_body (method_mods_info mrs) = true ->
+      Seq (GStmt (S fuel)) None body ns -> Forall (fun t => ~ In (tty t) [TEndProc; TEnd]) body -> In (tty e) [TEndProc; TEnd] ->
+      Decl (pt :: nts ++ pts ++ mts ++ body ++ [e]) (mk_proc_node pt name ps (method_mods_info mrs) (Some (body, ns, e)))
+  | D_proc_nobody pt nts name pts ps mts mrs : tty pt = TProc -> MName nts name -> GParams (S fuel) pts ps -> Mods mts mrs ->
+      has_method_body (method_mods_info mrs) = false ->
+      Decl (pt :: nts ++ pts ++ mts) (mk_proc_node pt name ps (method_mods_info mrs) None)
+  | D_func_gen ft nts name pts ps rk rt mts mrs body ns e : tty ft = TFunc -> MName nts name -> GParams (S fuel) pts ps ->
+      tty rk = TReturn -> tty rt = TIdentifier -> Mods mts mrs -> has_method_body (method_mods_info mrs) = true ->
+      Seq (GStmt (S fuel)) None body ns -> Forall (fun t => ~ In (tty t) [TEndFunc; TEnd]) body -> In (tty e) [TEndFunc; TEnd] ->
+      Decl (ft :: nts ++ pts ++ rk :: rt :: mts ++ body ++ [e]) (mk_func_node ft name ps rt (method_mods_info mrs) (Some (body, ns, e)))
+  | D_func_nobody ft nts name pts ps rk rt mts mrs : tty ft = TFunc -> MName nts name -> GParams (S fuel) pts ps ->
+      tty rk = TReturn -> tty rt = TIdentifier -> Mods mts mrs -> has_method_body (method_mods_info mrs) = false ->
+      Decl (ft :: nts ++ pts ++ rk :: rt :: mts) (mk_func_node ft name ps rt (method_mods_info mrs) None).
+
+  (* the forms of the first version of this file, as derived rules *)
+  Lemma D_const ct id eq v : tty ct = TConst -> tty id = TIdentifier -> tty eq = TEquals ->
+    In (tty v) [TStringLiteral; TNumericLiteral] -> Decl [ct; id; eq; v] (mk_const ct id v).
+  Proof. intros. rewrite mk_const_plain. apply (D_const_ml ct id eq v None); auto. exact I. Qed.
+
+  Lemma D_field id col tts tn : tty id = TIdentifier -> tty col = TColon -> GType (S fuel) tts tn ->
+    Decl (id :: col :: tts) (mk_field id tn).
+  Proof.
+    intros. rewrite mk_field_plain.
+    pose proof (D_field_gen [] None id col tts tn [] None An_none I H H0 H1 (Forall_nil _) I) as X.
+    cbn [app opt_list absolute_toks] in X. rewrite app_nil_r in X. exact X.
+  Qed.
+
+  Lemma D_proc pt nm body ns e : tty pt = TProc -> In (tty nm) ident_types ->
+    Seq (GStmt (S fuel)) None body ns -> Forall (fun t => ~ In (tty t) [TEndProc; TEnd]) body ->
+    In (tty e) [TEndProc; TEnd] -> Decl (pt :: nm :: body ++ [e]) (mk_proc pt nm body ns e).
+  Proof.
+    intros. rewrite mk_proc_plain.
+    apply (D_proc_gen pt [nm] _ [] None [] [] body ns e); auto; [apply MN_plain; assumption|apply PL_none|apply Md_nil].
+  Qed.
+
+  Lemma D_func ft nm rk rt body ns e : tty ft = TFunc -> In (tty nm) ident_types -> tty rk = TReturn -> tty rt = TIdentifier ->
+    Seq (GStmt (S fuel)) None body ns -> Forall (fun t => ~ In (tty t) [TEndFunc; TEnd]) body ->
+    In (tty e) [TEndFunc; TEnd] -> Decl (ft :: nm :: rk :: rt :: body ++ [e]) (mk_func ft nm rt body ns e).
+  Proof.
+    intros. rewrite mk_func_plain.
+    apply (D_func_gen ft [nm] _ [] None rk rt [] [] body ns e); auto; [apply MN_plain; assumption|apply PL_none|apply Md_nil].
+  Qed.
 
   (* a file: declarations one after the other *)
   Inductive Decls : list tok -> list node -> Prop :=
@@ -161,43 +340,6 @@ Section Top.
     cbv beta. destruct ns as [|s0 ns']; apply Parses_ret.
   Qed.
 
-  Lemma method_mods_none i : nostart method_mods i -> Parses parse_method_modifiers i i None.
-  Proof.
-    intros H c Hc. unfold parse_method_modifiers.
-    match goal with |- context [until_no_match ?p i c] =>
-      assert (Fails p i) as Hf end.
-    { apply alt_fails; [discriminate|]. repeat (apply Forall_cons || apply Forall_nil).
-      - unfold parse_member_modifier_tokens. eapply FailsAt_Fails. apply tok_alt_nostart; [discriminate|reflexivity|sub_nostart H].
-      - unfold parse_method_external. apply Fails_bind_l. apply seq_tokens_fail; [discriminate|sub_nostart H].
-      - eapply FailsAt_Fails. apply exp_token_nostart; [discriminate|sub_nostart H]. }
-    destruct (Parses_run _ _ _ _ c (until_no_match_none _ i Hf) Hc) as (c1 & E1 & Q1). rewrite E1.
-    eexists _, c1. repeat split; apply Q1.
-  Qed.
-
-  Lemma member_mods_none i : nostart method_mods i -> Parses parse_member_modifiers i i None.
-  Proof.
-    intros H c Hc. unfold parse_member_modifiers.
-    assert (Fails parse_member_modifier_tokens i) as Hf.
-    { unfold parse_member_modifier_tokens. eapply FailsAt_Fails. apply tok_alt_nostart; [discriminate|reflexivity|sub_nostart H]. }
-    destruct (Parses_run _ _ _ _ c (until_no_match_none _ i Hf) Hc) as (c1 & E1 & Q1). rewrite E1.
-    eexists _, c1. repeat split; apply Q1.
-  Qed.
-
-  Lemma method_name_parses nm r : In (tty nm) ident_types -> nostart [TPound] r ->
-    Parses parse_method_name (nm :: r) r (mk_terminal nm).
-  Proof.
-    intros Hn Hr. unfold parse_method_name, alt. apply alt_go_skip.
-    { unfold parse_method_name_uievent. eapply Fails_bind_r; [apply parse_identifier_ok; exact Hn|].
-      apply Fails_bind_l. eapply FailsAt_Fails. apply exp_token_nostart; [discriminate|exact Hr]. }
-    intro b. apply alt_go_here. apply parse_identifier_ok. exact Hn.
-  Qed.
-
-  Lemma no_params i : nostart [TOBracket] i -> Parses (parse_parameter_declaration_list (g_type g)) i i None.
-  Proof.
-    intro H. unfold parse_parameter_declaration_list.
-    eapply Parses_bind; [apply Parses_rae_none; apply exp_token_nostart; [discriminate|exact H]|]. cbv beta iota. apply Parses_ret.
-  Qed.
-
   (* the head of a body followed by its end token *)
   Lemma body_head terms body ns e more : Seq (GStmt (S fuel)) None body ns -> In (tty e) terms ->
     disj_b terms [TComment] = true -> (forall x, In x terms -> In x stops) ->
@@ -212,16 +354,37 @@ Section Top.
     cbn [sfollow_h]. apply in_or_app. left. apply (proj2 (GStmt_head _ _ _ Hn)). exact E.
   Qed.
 
-  Lemma method_tail_parses first eraw erange terms msg body ns e more :
+  Lemma method_tail_body first eraw erange mods terms msg body ns e more : has_method_body mods = true ->
     Seq (GStmt (S fuel)) None body ns -> Forall (fun t => ~ In (tty t) terms) body -> In (tty e) terms ->
-    Parses (method_tail g first eraw erange None terms msg) (body ++ e :: more) more
+    Parses (method_tail g first eraw erange mods terms msg) (body ++ e :: more) more
            (Some (body_or_default (mk_method_body body ns) eraw erange), Some e, trange e).
   Proof.
-    intros Hseq Hb He. unfold method_tail. cbn [has_method_body].
+    intros Hb Hseq Hbt He. unfold method_tail. rewrite Hb.
     eapply Parses_bind.
-    { apply take_until_ok; [apply body_terms; exact Hb|]. apply mem_ty_In. exact He. }
+    { apply take_until_ok; [apply body_terms; exact Hbt|]. apply mem_ty_In. exact He. }
     cbv beta iota. eapply Parses_bind; [apply method_body_parses; exact Hseq|]. cbv beta.
     eapply Parses_bind; [apply Parses_ret|]. cbv beta. apply Parses_ret.
+  Qed.
+
+  Lemma method_tail_nobody first eraw erange mods terms msg i : has_method_body mods = false ->
+    Parses (method_tail g first eraw erange mods terms msg) i i (None, None, erange).
+  Proof. intro Hb. unfold method_tail. rewrite Hb. apply Parses_ret. Qed.
+
+  (* the header of a method up to its modifiers: what follows them starts with a token of [S] *)
+  Definition hdr_bad : list ttype := TOBracket :: TPound :: method_mods.
+
+  Lemma mods_follow X mts mrs more : Mods mts mrs -> disj_b method_mods (TComment :: X) = true ->
+    nostart X more -> nostart X (mts ++ more).
+  Proof.
+    intros Hm Hd Hn. eapply (nostart_app_first X method_mods); [|exact Hd|exact Hn].
+    intros t r E. eapply Mods_head; eauto.
+  Qed.
+
+  Lemma params_follow X pts ps more : GParams (S fuel) pts ps -> mem_ty TOBracket (TComment :: X) = false ->
+    nostart X more -> nostart X (pts ++ more).
+  Proof.
+    intros Hp Hd Hn. destruct Hp as [|ob cb Hob _|ob ts ps cb Hob _ _]; [exact Hn| |]; cbn [app];
+      (eapply nostart_ty; [exact Hob|exact Hd]).
   Qed.
 
   (* ---------- one declaration ---------- *)
@@ -237,32 +400,28 @@ Section Top.
     - unfold parse_function_declaration. apply Fails_bind_l. eapply FailsAt_Fails. apply exp_token_nostart; [discriminate|sub_nostart H].
   Qed.
 
-  Lemma annot_none i : nostart [TOSqrBracket] i -> Parses (opt parse_annotations) i i None.
+  (* alternatives that start with an optional annotation and then need a keyword *)
+  Lemma class_fails ats r : Annot ats -> (ats = [] -> nostart [TOSqrBracket] r) -> nostart [TClass] r -> Fails parse_class (ats ++ r).
   Proof.
-    intro H. apply Parses_opt_none. unfold parse_annotations. apply Fails_bind_l.
-    eapply FailsAt_Fails. apply exp_token_nostart; [discriminate|exact H].
+    intros Ha Hr H. unfold parse_class. destruct (annot_parses ats r Ha Hr) as [v Hv].
+    eapply Fails_bind_r; [exact Hv|]. apply Fails_bind_l. eapply FailsAt_Fails. apply exp_token_nostart; [discriminate|exact H].
   Qed.
 
-  Lemma class_fails i : nostart [TOSqrBracket; TClass] i -> Fails parse_class i.
+  Lemma module_fails ats r : Annot ats -> (ats = [] -> nostart [TOSqrBracket] r) -> nostart [TModule] r -> Fails parse_module (ats ++ r).
   Proof.
-    intro H. unfold parse_class. eapply Fails_bind_r; [apply annot_none; sub_nostart H|].
-    apply Fails_bind_l. eapply FailsAt_Fails. apply exp_token_nostart; [discriminate|sub_nostart H].
+    intros Ha Hr H. unfold parse_module. destruct (annot_parses ats r Ha Hr) as [v Hv].
+    eapply Fails_bind_r; [exact Hv|]. apply Fails_bind_l. eapply FailsAt_Fails. apply exp_token_nostart; [discriminate|exact H].
   Qed.
 
-  Lemma module_fails i : nostart [TOSqrBracket; TModule] i -> Fails parse_module i.
+  Lemma typedecl_fails' ats r : Annot ats -> (ats = [] -> nostart [TOSqrBracket] r) -> nostart [TType] r ->
+    Fails (parse_type_declaration (g_type g)) (ats ++ r).
   Proof.
-    intro H. unfold parse_module. eapply Fails_bind_r; [apply annot_none; sub_nostart H|].
-    apply Fails_bind_l. eapply FailsAt_Fails. apply exp_token_nostart; [discriminate|sub_nostart H].
+    intros Ha Hr H. unfold parse_type_declaration. destruct (annot_parses ats r Ha Hr) as [v Hv].
+    eapply Fails_bind_r; [exact Hv|]. apply Fails_bind_l. apply seq_tokens_fail; [discriminate|exact H].
   Qed.
 
   Lemma uses_fails' i : nostart [TUses] i -> Fails parse_uses i.
   Proof. intro H. unfold parse_uses. apply Fails_bind_l. eapply FailsAt_Fails. apply exp_token_nostart; [discriminate|exact H]. Qed.
-
-  Lemma typedecl_fails' i : nostart [TOSqrBracket; TType] i -> Fails (parse_type_declaration (g_type g)) i.
-  Proof.
-    intro H. unfold parse_type_declaration. eapply Fails_bind_r; [apply annot_none; sub_nostart H|].
-    apply Fails_bind_l. apply seq_tokens_fail; [discriminate|sub_nostart H].
-  Qed.
 
   Lemma const_fails' i : nostart [TConst] i -> Fails parse_constant_declaration i.
   Proof.
@@ -273,17 +432,46 @@ Section Top.
   Lemma comment_fails' t r : tty t <> TComment -> Fails parse_comment (t :: r).
   Proof. intro H. unfold parse_comment. apply Fails_bind_l. eapply FailsAt_Fails. apply exp_comment_fail. exact H. Qed.
 
+  Definition decl_kw : list ttype := [TProc; TFunc; TOSqrBracket; TClass; TModule; TUses; TType; TConst; TMemory].
+
+  Ltac dfails Hn :=
+    repeat (apply Forall_cons || apply Forall_nil);
+    first [ apply (class_fails [] _ An_none); [intros _|]; sub_nostart Hn
+          | apply (module_fails [] _ An_none); [intros _|]; sub_nostart Hn
+          | apply uses_fails'; sub_nostart Hn
+          | apply (typedecl_fails' [] _ An_none); [intros _|]; sub_nostart Hn
+          | apply const_fails'; sub_nostart Hn ].
+
+  (* the first token of a field declaration *)
+  Lemma field_first ats mem id rest : Annot ats -> mem_ok mem -> tty id = TIdentifier ->
+    exists t r, ats ++ opt_list mem ++ id :: rest = t :: r /\ In (tty t) [TOSqrBracket; TMemory; TIdentifier].
+  Proof.
+    intros Ha Hm Hid. destruct Ha as [|o body c Ho _ _].
+    - destruct mem as [m|]; cbn [app opt_list]; eexists _, _; (split; [reflexivity|]); simpl in *; rewrite ?Hm, ?Hid; tauto.
+    - cbn [app]. eexists _, _. split; [reflexivity|]. rewrite Ho. simpl. tauto.
+  Qed.
+
+  Lemma field_rest_first mem id rest : mem_ok mem -> tty id = TIdentifier ->
+    exists t r, opt_list mem ++ id :: rest = t :: r /\ In (tty t) [TMemory; TIdentifier].
+  Proof.
+    intros Hm Hid. destruct mem as [m|]; cbn [app opt_list]; eexists _, _; (split; [reflexivity|]); simpl in *; rewrite ?Hm, ?Hid; tauto.
+  Qed.
+
   Theorem decl_parses ts n more : Decl ts n -> dfollow_ok ts (hd_ty more) -> TopStep (ts ++ more) more n.
   Proof.
     intros H [Hfo Hcm].
-    destruct H as [ct nt Hct Hnt|ct nt o p c Hct Hnt Ho Hp Hc|mt nm Hmt Hnm|ut ts ids Hut Hl|ct id eq v Hct Hid Heq Hv
-                  |id col tts tn Hid Hcol Hty|c Hc|pt nm body ns e Hpt Hnm Hseq Hb He
-                  |ft nm rk rt body ns e Hft Hnm Hrk Hrt Hseq Hb He]; cbn [app].
+    destruct H as [ct nt Hct Hnt|ct nt o p c Hct Hnt Ho Hp Hc|mt nm Hmt Hnm|ut ts ids Hut Hl|ct id eq v ml Hct Hid Heq Hv Hml
+                  |tk id col tts tn Htk Hid Hcol Hty
+                  |ats mem id col tts tn mts ab Hats Hmem Hid Hcol Hty Hmts Hab|c Hc
+                  |pt nts name pts ps mts mrs body ns e Hpt Hname Hps Hmods Hhb Hseq Hb He
+                  |pt nts name pts ps mts mrs Hpt Hname Hps Hmods Hhb
+                  |ft nts name pts ps rk rt mts mrs body ns e Hft Hname Hps Hrk Hrt Hmods Hhb Hseq Hb He
+                  |ft nts name pts ps rk rt mts mrs Hft Hname Hps Hrk Hrt Hmods Hhb]; cbn [app].
     - (* class X *)
       right. assert (nostart [TProc; TFunc; TOSqrBracket] (ct :: nt :: more)) as Hn by (eapply nostart_ty; [exact Hct|reflexivity]).
       split; [apply top_blocks_fail; sub_nostart Hn|]. unfold top_decl_parsers, alt.
       apply alt_go_skip; [apply comment_fails'; rewrite Hct; discriminate|]. intro b1. apply alt_go_here.
-      unfold parse_class. eapply Parses_bind; [apply annot_none; sub_nostart Hn|]. cbv beta.
+      unfold parse_class. eapply Parses_bind; [apply annot_opt_none; sub_nostart Hn|]. cbv beta.
       eapply Parses_bind; [apply exp_token_ok; exact Hct|]. cbv beta.
       eapply Parses_bind; [apply exp_token_ok; exact Hnt|]. cbv beta.
       eapply Parses_bind.
@@ -294,7 +482,7 @@ Section Top.
       right. assert (nostart [TProc; TFunc; TOSqrBracket] (ct :: nt :: o :: p :: c :: more)) as Hn by (eapply nostart_ty; [exact Hct|reflexivity]).
       split; [apply top_blocks_fail; sub_nostart Hn|]. unfold top_decl_parsers, alt.
       apply alt_go_skip; [apply comment_fails'; rewrite Hct; discriminate|]. intro b1. apply alt_go_here.
-      unfold parse_class. eapply Parses_bind; [apply annot_none; sub_nostart Hn|]. cbv beta.
+      unfold parse_class. eapply Parses_bind; [apply annot_opt_none; sub_nostart Hn|]. cbv beta.
       eapply Parses_bind; [apply exp_token_ok; exact Hct|]. cbv beta.
       eapply Parses_bind; [apply exp_token_ok; exact Hnt|]. cbv beta.
       eapply Parses_bind.
@@ -303,94 +491,198 @@ Section Top.
         cbv beta iota. apply Parses_ret. }
       cbv beta iota. apply Parses_ret.
     - (* module X *)
-      right. assert (nostart [TProc; TFunc; TOSqrBracket; TClass] (mt :: nm :: more)) as Hn by (eapply nostart_ty; [exact Hmt|reflexivity]).
+      right. pose proof (first_excl_gen decl_kw TModule mt (nm :: more) Hmt ltac:(discriminate)) as Hn. simpl in Hn.
       split; [apply top_blocks_fail; sub_nostart Hn|]. unfold top_decl_parsers, alt.
       apply alt_go_skip; [apply comment_fails'; rewrite Hmt; discriminate|]. intro b1.
-      apply alt_go_skip; [apply class_fails; sub_nostart Hn|]. intro b2. apply alt_go_here.
-      unfold parse_module. eapply Parses_bind; [apply annot_none; sub_nostart Hn|]. cbv beta.
+      apply (alt_go_pick [parse_class]); [dfails Hn|].
+      unfold parse_module. eapply Parses_bind; [apply annot_opt_none; sub_nostart Hn|]. cbv beta.
       eapply Parses_bind; [apply exp_token_ok; exact Hmt|]. cbv beta.
       eapply Parses_bind; [apply exp_token_ok; exact Hnm|]. cbv beta. apply Parses_ret.
     - (* uses a, b *)
-      right. assert (nostart [TProc; TFunc; TOSqrBracket; TClass; TModule] (ut :: ts ++ more)) as Hn by (eapply nostart_ty; [exact Hut|reflexivity]).
+      right. pose proof (first_excl_gen decl_kw TUses ut (ts ++ more) Hut ltac:(discriminate)) as Hn. simpl in Hn.
       split; [apply top_blocks_fail; sub_nostart Hn|]. unfold top_decl_parsers, alt.
       apply alt_go_skip; [apply comment_fails'; rewrite Hut; discriminate|]. intro b1.
-      apply alt_go_skip; [apply class_fails; sub_nostart Hn|]. intro b2.
-      apply alt_go_skip; [apply module_fails; sub_nostart Hn|]. intro b3. apply alt_go_here.
+      apply (alt_go_pick [parse_class; parse_module]); [dfails Hn|].
       unfold parse_uses. eapply Parses_bind; [apply exp_token_ok; exact Hut|]. cbv beta.
       eapply Parses_bind; [apply sep_tokens_ok; [discriminate|exact Hl|apply dfollow_nostart; [reflexivity|exact Hfo]]|].
       cbv beta. apply Parses_ret.
-    - (* const c = v *)
-      right. assert (nostart [TProc; TFunc; TOSqrBracket; TClass; TModule; TUses; TType] (ct :: id :: eq :: v :: more)) as Hn
-        by (eapply nostart_ty; [exact Hct|reflexivity]).
+    - (* const c = v [multilang] *)
+      right. pose proof (first_excl_gen decl_kw TConst ct (id :: eq :: v :: opt_list ml ++ more) Hct ltac:(discriminate)) as Hn. simpl in Hn.
       split; [apply top_blocks_fail; sub_nostart Hn|]. unfold top_decl_parsers, alt.
       apply alt_go_skip; [apply comment_fails'; rewrite Hct; discriminate|]. intro b1.
-      apply alt_go_skip; [apply class_fails; sub_nostart Hn|]. intro b2.
-      apply alt_go_skip; [apply module_fails; sub_nostart Hn|]. intro b3.
-      apply alt_go_skip; [apply uses_fails'; sub_nostart Hn|]. intro b4.
-      apply alt_go_skip; [apply typedecl_fails'; sub_nostart Hn|]. intro b5. apply alt_go_here.
+      apply (alt_go_pick [parse_class; parse_module; parse_uses; parse_type_declaration (g_type g)]); [dfails Hn|].
       unfold parse_constant_declaration.
       eapply Parses_bind; [apply Parses_prepend; apply exp_token_ok; exact Hct|]. cbv beta.
       eapply Parses_bind; [apply Parses_prepend; apply exp_token_ok; exact Hid|]. cbv beta.
       eapply Parses_bind; [apply Parses_prepend; apply exp_token_ok; exact Heq|]. cbv beta.
       eapply Parses_bind; [apply Parses_prepend; apply tok_alt_in; [exact Hv|reflexivity]|]. cbv beta.
-      eapply Parses_bind.
-      { apply Parses_rae_none. apply exp_token_nostart; [discriminate|]. apply dfollow_nostart; [reflexivity|exact Hfo]. }
-      cbv beta iota. apply Parses_ret.
-    - (* field : T *)
-      right. assert (nostart [TProc; TFunc; TOSqrBracket; TClass; TModule; TUses; TType; TConst; TMemory] (id :: col :: tts ++ more)) as Hn
-        by (eapply nostart_ty; [exact Hid|reflexivity]).
+      destruct ml as [m|]; cbn [opt_list app].
+      + eapply Parses_bind; [apply Parses_rae_some; apply exp_token_ok; exact Hml|]. cbv beta iota. apply Parses_ret.
+      + eapply Parses_bind.
+        { apply Parses_rae_none. apply exp_token_nostart; [discriminate|]. apply dfollow_nostart; [reflexivity|exact Hfo]. }
+        cbv beta iota. apply Parses_ret.
+    - (* type T : ... *)
+      right. pose proof (first_excl_gen decl_kw TType tk (id :: col :: tts ++ more) Htk ltac:(discriminate)) as Hn. simpl in Hn.
       split; [apply top_blocks_fail; sub_nostart Hn|]. unfold top_decl_parsers, alt.
-      apply alt_go_skip; [apply comment_fails'; rewrite Hid; discriminate|]. intro b1.
-      apply alt_go_skip; [apply class_fails; sub_nostart Hn|]. intro b2.
-      apply alt_go_skip; [apply module_fails; sub_nostart Hn|]. intro b3.
-      apply alt_go_skip; [apply uses_fails'; sub_nostart Hn|]. intro b4.
-      apply alt_go_skip; [apply typedecl_fails'; sub_nostart Hn|]. intro b5.
-      apply alt_go_skip; [apply const_fails'; sub_nostart Hn|]. intro b6. apply alt_go_here.
+      apply alt_go_skip; [apply comment_fails'; rewrite Htk; discriminate|]. intro b1.
+      apply (alt_go_pick [parse_class; parse_module; parse_uses]); [dfails Hn|].
+      unfold parse_type_declaration. eapply Parses_bind; [apply annot_opt_none; sub_nostart Hn|]. cbv beta.
+      eapply Parses_bind; [apply (seq_tokens_ok _ [tk; id; col]); cbn [map]; rewrite Htk, Hid, Hcol; reflexivity|]. cbv beta iota.
+      eapply Parses_bind; [apply gram_type_rt; [exact Hty|apply dfollow_nostart; [reflexivity|exact Hfo]]|]. cbv beta. apply Parses_ret.
+    - (* field *)
+      right. rewrite <- ?app_assoc. cbn [app]. rewrite <- ?app_assoc.
+      set (tail := mts ++ absolute_toks ab ++ more).
+      set (R := opt_list mem ++ id :: col :: tts ++ tail).
+      destruct (field_first ats mem id (col :: tts ++ tail) Hats Hmem Hid) as (t0 & r0 & E0 & Ht0).
+      destruct (field_rest_first mem id (col :: tts ++ tail) Hmem Hid) as (t1 & r1 & E1 & Ht1).
+      fold R in E0, E1.
+      assert (forall X, disj_b [TOSqrBracket; TMemory; TIdentifier] (TComment :: X) = true -> nostart X (ats ++ R)) as Hall.
+      { intros X Hd. rewrite E0. eapply starts_nostart; eauto. }
+      assert (forall X, disj_b [TMemory; TIdentifier] (TComment :: X) = true -> nostart X R) as HR.
+      { intros X Hd. rewrite E1. eapply starts_nostart; eauto. }
+      assert (forall X, disj_b (member_mod_types ++ TAbsolute :: decl_first) (TComment :: X) = true -> nostart X tail) as Htail.
+      { intros X Hd. unfold tail.
+        eapply (nostart_app_first X member_mod_types); [| |].
+        - intros t r E. subst mts. inversion Hmts; assumption.
+        - unfold disj_b in *. rewrite forallb_app in Hd. apply andb_true_iff in Hd. apply Hd.
+        - destruct ab as [[k v]|]; cbn [absolute_toks app].
+          + destruct Hab as [Hk _]. eapply nostart_ty; [exact Hk|].
+            unfold disj_b in Hd. rewrite forallb_app in Hd. apply andb_true_iff in Hd as [_ Hd]. cbn [forallb] in Hd.
+            apply andb_true_iff in Hd as [Hd _]. destruct (mem_ty TAbsolute (TComment :: X)); [discriminate|reflexivity].
+          + apply dfollow_nostart; [|exact Hfo].
+            unfold disj_b in *. rewrite forallb_app in Hd. apply andb_true_iff in Hd as [_ Hd]. cbn [forallb] in Hd.
+            apply andb_true_iff in Hd as [_ Hd].
+            (* X disjoint from decl_first, in the other direction *)
+            apply forallb_forall. intros x Hx. destruct (mem_ty x decl_first) eqn:Em; [|reflexivity]. exfalso.
+            apply mem_ty_In in Em. rewrite forallb_forall in Hd. specialize (Hd x Em).
+            assert (mem_ty x (TComment :: X) = true) as Y by (apply mem_ty_In; right; exact Hx). rewrite Y in Hd. discriminate. }
+      split; [apply top_blocks_fail; apply Hall; reflexivity|]. unfold top_decl_parsers, alt.
+      apply alt_go_skip.
+      { rewrite E0. apply comment_fails'. intro X. rewrite X in Ht0. simpl in Ht0. intuition discriminate. }
+      intro b1.
+      assert (ats = [] -> nostart [TOSqrBracket] R) as Hna by (intros _; apply HR; reflexivity).
+      apply (alt_go_pick [parse_class; parse_module; parse_uses; parse_type_declaration (g_type g); parse_constant_declaration]).
+      { repeat (apply Forall_cons || apply Forall_nil).
+        - apply class_fails; [exact Hats|exact Hna|apply HR; reflexivity].
+        - apply module_fails; [exact Hats|exact Hna|apply HR; reflexivity].
+        - apply uses_fails'. apply Hall. reflexivity.
+        - apply typedecl_fails'; [exact Hats|exact Hna|apply HR; reflexivity].
+        - apply const_fails'. apply Hall. reflexivity. }
       unfold parse_global_variable_declaration.
-      eapply Parses_bind; [apply annot_none; sub_nostart Hn|]. cbv beta.
-      eapply Parses_bind; [apply Parses_rae_none; apply exp_token_nostart; [discriminate|sub_nostart Hn]|]. cbv beta.
+      destruct (annot_parses ats R Hats Hna) as [av Hav].
+      eapply Parses_bind; [exact Hav|]. cbv beta. unfold R.
+      eapply Parses_bind.
+      { instantiate (1 := mem). instantiate (1 := id :: col :: tts ++ tail).
+        destruct mem as [m|]; cbn [opt_list app].
+        - apply Parses_rae_some. apply exp_token_ok. exact Hmem.
+        - apply Parses_rae_none. apply exp_token_nostart; [discriminate|]. eapply nostart_ty; [exact Hid|reflexivity]. }
+      cbv beta.
       eapply Parses_bind; [apply exp_token_ok; exact Hid|]. cbv beta.
       eapply Parses_bind; [apply exp_token_ok; exact Hcol|]. cbv beta.
-      eapply Parses_bind; [apply type_parses; [exact Hty|apply dfollow_nostart; [reflexivity|exact Hfo]]|]. cbv beta.
-      eapply Parses_bind; [apply member_mods_none; apply dfollow_nostart; [reflexivity|exact Hfo]|]. cbv beta.
+      eapply Parses_bind; [apply gram_type_rt; [exact Hty|apply Htail; reflexivity]|]. cbv beta.
       eapply Parses_bind.
-      { apply Parses_opt_none. eapply FailsAt_Fails. apply exp_token_nostart; [discriminate|].
-        apply dfollow_nostart; [reflexivity|exact Hfo]. }
-      cbv beta iota. eapply Parses_bind; [apply Parses_ret|]. cbv beta iota. apply Parses_ret.
+      { unfold tail. apply member_mods_parses; [exact Hmts|].
+        destruct ab as [[k v]|]; cbn [absolute_toks app].
+        - destruct Hab as [Hk _]. eapply nostart_ty; [exact Hk|reflexivity].
+        - apply dfollow_nostart; [reflexivity|exact Hfo]. }
+      cbv beta.
+      destruct ab as [[k v]|]; cbn [absolute_toks app absolute_node option_map snd].
+      + destruct Hab as [Hk Hv].
+        eapply Parses_bind; [apply Parses_opt_some; apply exp_token_ok; exact Hk|]. cbv beta iota.
+        eapply Parses_bind; [eapply Parses_bind; [apply parse_identifier_ok; exact Hv|apply Parses_ret]|]. cbv beta iota.
+        destruct mem; apply Parses_ret.
+      + eapply Parses_bind.
+        { apply Parses_opt_none. eapply FailsAt_Fails. apply exp_token_nostart; [discriminate|].
+          apply dfollow_nostart; [reflexivity|exact Hfo]. }
+        cbv beta iota. eapply Parses_bind; [apply Parses_ret|]. cbv beta iota. destruct mem; apply Parses_ret.
     - (* comment *)
       right. assert (hd_ty [c] = None) as Hnone by (simpl; unfold is_comment; rewrite Hc, tt_eqb_refl; reflexivity).
       specialize (Hcm Hnone). split.
       + apply top_blocks_fail. apply nostart_comment; [exact Hc|]. intros ty Hh X. rewrite Hh in Hcm. apply Hcm. exact X.
       + unfold top_decl_parsers, alt. apply alt_go_here. unfold parse_comment.
         eapply Parses_bind; [apply exp_token_ok; exact Hc|]. cbv beta. apply Parses_ret.
-    - (* proc *)
-      left. rewrite <- app_assoc. cbn [app]. unfold top_block_parsers, alt. apply alt_go_here.
+    - (* proc with body *)
+      left. rewrite <- ?app_assoc. cbn [app]. rewrite <- ?app_assoc. unfold top_block_parsers, alt. apply alt_go_here.
       assert (sfollow_h (hd_ty (body ++ e :: more))) as Hbh.
       { eapply body_head; [exact Hseq|exact He|reflexivity|]. intros x Hx. simpl in Hx. simpl. tauto. }
+      assert (forall X, disj_b X (stmt_first ++ stops) = true -> nostart X (body ++ e :: more)) as Hbody
+        by (intros X Hd; apply sfollow_nostart; [exact Hd|exact Hbh]).
       unfold parse_procedure_declaration.
       eapply Parses_bind; [apply exp_token_ok; exact Hpt|]. cbv beta.
-      eapply Parses_bind; [apply method_name_parses; [exact Hnm|apply sfollow_nostart; [reflexivity|exact Hbh]]|]. cbv beta.
-      eapply Parses_bind; [apply no_params; apply sfollow_nostart; [reflexivity|exact Hbh]|]. cbv beta.
-      eapply Parses_bind; [apply method_mods_none; apply sfollow_nostart; [reflexivity|exact Hbh]|]. cbv beta iota.
-      eapply Parses_bind; [apply method_tail_parses; eassumption|]. cbv beta iota. apply Parses_ret.
-    - (* func *)
-      left. rewrite <- app_assoc. cbn [app]. unfold top_block_parsers, alt. apply alt_go_skip.
+      eapply Parses_bind.
+      { apply method_name_parses; [exact Hname|].
+        apply (params_follow _ _ ps); [exact Hps|reflexivity|]. apply (mods_follow _ _ mrs); [exact Hmods|reflexivity|].
+        apply Hbody. reflexivity. }
+      cbv beta. eapply Parses_bind.
+      { apply (gram_params_rt (S fuel)); [exact Hps|]. apply (mods_follow _ _ mrs); [exact Hmods|reflexivity|]. apply Hbody. reflexivity. }
+      cbv beta. eapply Parses_bind; [apply method_mods_parses; [exact Hmods|apply Hbody; reflexivity]|]. cbv beta.
+      unfold mk_proc_node. destruct (method_mods_info mrs) as [[[mr rr] fl]|]; destruct ps as [pn|]; cbv beta iota zeta;
+        cbn [mods_end mods_flags fst snd];
+        (eapply Parses_bind; [apply method_tail_body; eassumption|]); cbv beta iota; apply Parses_ret.
+    - (* proc without body (forward / external) *)
+      left. rewrite <- ?app_assoc. cbn [app]. unfold top_block_parsers, alt. apply alt_go_here.
+      assert (forall X, disj_b X decl_first = true -> nostart X more) as Hmore
+        by (intros X Hd; apply dfollow_nostart; [exact Hd|exact Hfo]).
+      unfold parse_procedure_declaration.
+      eapply Parses_bind; [apply exp_token_ok; exact Hpt|]. cbv beta.
+      eapply Parses_bind.
+      { apply method_name_parses; [exact Hname|].
+        apply (params_follow _ _ ps); [exact Hps|reflexivity|]. apply (mods_follow _ _ mrs); [exact Hmods|reflexivity|].
+        apply Hmore. reflexivity. }
+      cbv beta. eapply Parses_bind.
+      { apply (gram_params_rt (S fuel)); [exact Hps|]. apply (mods_follow _ _ mrs); [exact Hmods|reflexivity|]. apply Hmore. reflexivity. }
+      cbv beta. eapply Parses_bind; [apply method_mods_parses; [exact Hmods|apply Hmore; reflexivity]|]. cbv beta.
+      unfold mk_proc_node. destruct (method_mods_info mrs) as [[[mr rr] fl]|]; destruct ps as [pn|]; cbv beta iota zeta;
+        cbn [mods_end mods_flags fst snd];
+        (eapply Parses_bind; [apply method_tail_nobody; exact Hhb|]); cbv beta iota; apply Parses_ret.
+    - (* func with body *)
+      left. rewrite <- ?app_assoc. cbn [app]. rewrite <- ?app_assoc. cbn [app]. rewrite <- ?app_assoc.
+      unfold top_block_parsers, alt. apply alt_go_skip.
       { unfold parse_procedure_declaration. apply Fails_bind_l. eapply FailsAt_Fails. apply exp_token_nostart; [discriminate|].
         eapply nostart_ty; [exact Hft|reflexivity]. }
       intro b1. apply alt_go_here.
       assert (sfollow_h (hd_ty (body ++ e :: more))) as Hbh.
       { eapply body_head; [exact Hseq|exact He|reflexivity|]. intros x Hx. simpl in Hx. simpl. tauto. }
+      assert (forall X, disj_b X (stmt_first ++ stops) = true -> nostart X (body ++ e :: more)) as Hbody
+        by (intros X Hd; apply sfollow_nostart; [exact Hd|exact Hbh]).
       unfold parse_function_declaration.
       eapply Parses_bind; [apply exp_token_ok; exact Hft|]. cbv beta.
-      eapply Parses_bind; [apply method_name_parses; [exact Hnm|eapply nostart_ty; [exact Hrk|reflexivity]]|]. cbv beta.
-      eapply Parses_bind; [apply no_params; eapply nostart_ty; [exact Hrk|reflexivity]|]. cbv beta.
-      eapply Parses_bind; [apply exp_token_ok; exact Hrk|]. cbv beta.
       eapply Parses_bind.
-      { unfold alt. apply alt_go_here. unfold parse_type_basic.
-        eapply Parses_bind; [apply tok_alt_in; [left; symmetry; exact Hrt|reflexivity]|]. apply Parses_ret. }
-      cbv beta.
-      eapply Parses_bind; [apply method_mods_none; apply sfollow_nostart; [reflexivity|exact Hbh]|]. cbv beta iota.
-      eapply Parses_bind; [apply method_tail_parses; eassumption|]. cbv beta iota. apply Parses_ret.
+      { apply method_name_parses; [exact Hname|].
+        apply (params_follow _ _ ps); [exact Hps|reflexivity|]. eapply nostart_ty; [exact Hrk|reflexivity]. }
+      cbv beta. eapply Parses_bind; [apply (gram_params_rt (S fuel)); [exact Hps|eapply nostart_ty; [exact Hrk|reflexivity]]|]. cbv beta.
+      eapply Parses_bind; [apply exp_token_ok; exact Hrk|]. cbv beta.
+      eapply Parses_bind; [unfold alt; apply alt_go_here; apply type_basic_ok; exact Hrt|]. cbv beta.
+      eapply Parses_bind; [apply method_mods_parses; [exact Hmods|apply Hbody; reflexivity]|]. cbv beta.
+      unfold mk_func_node. destruct (method_mods_info mrs) as [[[mr rr] fl]|]; cbv beta iota zeta;
+        cbn [mods_end mods_flags fst snd];
+        (eapply Parses_bind; [apply method_tail_body; eassumption|]); cbv beta iota; apply Parses_ret.
+    - (* func without body *)
+      left. rewrite <- ?app_assoc. cbn [app]. rewrite <- ?app_assoc. cbn [app].
+      unfold top_block_parsers, alt. apply alt_go_skip.
+      { unfold parse_procedure_declaration. apply Fails_bind_l. eapply FailsAt_Fails. apply exp_token_nostart; [discriminate|].
+        eapply nostart_ty; [exact Hft|reflexivity]. }
+      intro b1. apply alt_go_here.
+      assert (forall X, disj_b X decl_first = true -> nostart X more) as Hmore
+        by (intros X Hd; apply dfollow_nostart; [exact Hd|exact Hfo]).
+      unfold parse_function_declaration.
+      eapply Parses_bind; [apply exp_token_ok; exact Hft|]. cbv beta.
+      eapply Parses_bind.
+      { apply method_name_parses; [exact Hname|].
+        apply (params_follow _ _ ps); [exact Hps|reflexivity|]. eapply nostart_ty; [exact Hrk|reflexivity]. }
+      cbv beta. eapply Parses_bind; [apply (gram_params_rt (S fuel)); [exact Hps|eapply nostart_ty; [exact Hrk|reflexivity]]|]. cbv beta.
+      eapply Parses_bind; [apply exp_token_ok; exact Hrk|]. cbv beta.
+      eapply Parses_bind; [unfold alt; apply alt_go_here; apply type_basic_ok; exact Hrt|]. cbv beta.
+      eapply Parses_bind; [apply method_mods_parses; [exact Hmods|apply Hmore; reflexivity]|]. cbv beta.
+      unfold mk_func_node. destruct (method_mods_info mrs) as [[[mr rr] fl]|]; cbv beta iota zeta;
+        cbn [mods_end mods_flags fst snd];
+        (eapply Parses_bind; [apply method_tail_nobody; exact Hhb|]); cbv beta iota; apply Parses_ret.
+  Qed.
+
+  Lemma Decl_nonempty ts n : Decl ts n -> (1 <= length ts)%nat.
+  Proof.
+    intro H. destruct H; cbn [length app]; try lia.
+    match goal with Ha : Annot ?ats |- _ => destruct Ha end; destruct mem; cbn [app opt_list length]; lia.
   Qed.
 
   (* ---------- the top-level loop ---------- *)
@@ -401,7 +693,7 @@ Section Top.
     intros ts ns H. induction H as [|ts n ts' ns Hd Hds IH Hfo]; intros lfuel whole acc Hf c Hc;
       (destruct lfuel as [|lf]; [simpl in Hf; lia|]); cbn [top_loop].
     - eexists _, c. split; [reflexivity|]. split; [apply quiet_refl|]. rewrite app_nil_r. reflexivity.
-    - assert (ts ++ ts' <> []) as Hne by (destruct Hd; discriminate).
+    - assert (ts ++ ts' <> []) as Hne by (pose proof (Decl_nonempty _ _ Hd); destruct ts; [simpl in *; lia|discriminate]).
       destruct (ts ++ ts') as [|ft il] eqn:Ei; [congruence|]. rewrite <- Ei in *.
       destruct (decl_parses ts n ts' Hd Hfo) as [Hb|[Hbf Hdp]].
       + destruct (Hb c Hc) as (x & c1 & E1 & Q1 & ->). rewrite E1.
@@ -417,7 +709,7 @@ Section Top.
   Lemma Decls_length ts ns : Decls ts ns -> (length ns <= length ts)%nat.
   Proof.
     induction 1 as [|ts n ts' ns Hd Hds IH Hfo]; [simpl; lia|]. rewrite app_length. simpl.
-    assert (1 <= length ts)%nat by (destruct Hd; simpl; lia). lia.
+    pose proof (Decl_nonempty _ _ Hd). lia.
   Qed.
 
   (* a derivable file parses to exactly its declarations: all tokens consumed, no diagnostics *)
@@ -437,16 +729,21 @@ Lemma Decl_mono f f' : (f <= f')%nat -> rel_le (Decl f) (Decl f').
 Proof.
   intros Hle ts n H.
   assert (rel_le (GStmt (S f)) (GStmt (S f'))) as Hs by (apply GStmt_mono; lia).
+  assert (rel_le (GType (S f)) (GType (S f'))) as Ht by (apply GType_mono; lia).
+  assert (forall ts n, GParams (S f) ts n -> GParams (S f') ts n) as Hp by (intros; eapply GParams_mono; [|eassumption]; lia).
   destruct H.
   - apply D_class; auto.
   - apply D_classp; auto.
   - apply D_module; auto.
   - apply D_uses; auto.
-  - apply D_const; auto.
-  - apply D_field; auto.
+  - apply D_const_ml; auto.
+  - apply D_typedecl; auto.
+  - apply D_field_gen; auto.
   - apply D_comment; auto.
-  - apply D_proc; auto. eapply Seq_mono; eauto.
-  - apply D_func; auto. eapply Seq_mono; eauto.
+  - apply D_proc_gen; auto. eapply Seq_mono; eauto.
+  - apply D_proc_nobody; auto.
+  - apply D_func_gen; auto. eapply Seq_mono; eauto.
+  - apply D_func_nobody; auto.
 Qed.
 
 Lemma Decls_mono f f' ts ns : (f <= f')%nat -> Decls f ts ns -> Decls f' ts ns.
